@@ -51,22 +51,26 @@ EXTRA = {
                        active_power_exclusion_upper_bound=7773.0, active_power_inclusion_upper_bound=7774.0),
 }
 
-FULL = [(c, n, m) for c in (1, 2, UNKNOWN) for n in (1, 2) for m in (1, 2)]
-CANON = [(1, 1, 1), (1, 1, 2), (1, 2, 1), (2, 1, 1), (UNKNOWN, 1, 1)]  # up to renaming of namespaces / metrics / components
+# requests are (component, namespace, metric, start_time): start_time 0 = None, 1 = START_TIME; the four
+# fields are exactly what ComponentMetricRequest.get_channel_name() is built from
+FULL = [(c, n, m, 0) for c in (1, 2, UNKNOWN) for n in (1, 2) for m in (1, 2)] + [(c, 1, 1, 1) for c in (1, 2, UNKNOWN)]
+FULL_SIM = [(c, n, m, st) for c in (1, 2, UNKNOWN) for n in (1, 2) for m in (1, 2) for st in (0, 1)]
+# up to renaming of namespaces / metrics / components; the last differs from the first ONLY in start_time
+CANON = [(1, 1, 1, 0), (1, 1, 2, 0), (1, 2, 1, 0), (2, 1, 1, 0), (UNKNOWN, 1, 1, 0), (1, 1, 1, 1)]
 
 
 def _reqset(t):
-    return Raw("{" + ", ".join(f"[c |-> {c}, ns |-> {n}, m |-> {m}]" for c, n, m in t) + "}")
+    return Raw("{" + ", ".join(f"[c |-> {c}, ns |-> {n}, m |-> {m}, st |-> {st}]" for c, n, m, st in t) + "}")
 
 
-BASE = dict(Comps={1, 2}, Unknown=UNKNOWN, Namespaces={1, 2}, Metrics={1, 2})
+BASE = dict(Comps={1, 2}, Unknown=UNKNOWN, Namespaces={1, 2}, Metrics={1, 2}, Starts={0, 1})
 SCOPES = {
     "quick": dict(
         mc=dict(BASE, ReqSet=_reqset(CANON), MaxMsg=4, MaxReq=3),
         live=dict(BASE, ReqSet=_reqset(CANON), MaxMsg=2, MaxReq=2),
         gen=dict(BASE, ReqSet=_reqset(CANON), MaxMsg=2, MaxReq=2, MaxDepth=9),
         gen_limit=2000,
-        sim=dict(BASE, ReqSet=_reqset(FULL), MaxMsg=6, MaxReq=4, MaxDepth=40),
+        sim=dict(BASE, ReqSet=_reqset(FULL_SIM), MaxMsg=6, MaxReq=4, MaxDepth=40),
         sim_num=400,
         env=dict(BASE, ReqSet=_reqset(CANON), MaxMsg=3, MaxReq=3, MaxDepth=5),
         off_orders=8, off_k=4,
@@ -77,7 +81,7 @@ SCOPES = {
         live=dict(BASE, ReqSet=_reqset(CANON), MaxMsg=3, MaxReq=2),
         gen=dict(BASE, ReqSet=_reqset(CANON), MaxMsg=3, MaxReq=3, MaxDepth=11),
         gen_limit=60000,
-        sim=dict(BASE, ReqSet=_reqset(FULL), MaxMsg=8, MaxReq=5, MaxDepth=60),
+        sim=dict(BASE, ReqSet=_reqset(FULL_SIM), MaxMsg=8, MaxReq=5, MaxDepth=60),
         sim_num=20000,
         env=dict(BASE, ReqSet=_reqset(CANON), MaxMsg=4, MaxReq=3, MaxDepth=6),
         off_orders=24, off_k=4,
@@ -89,8 +93,10 @@ MC_PROPS = ["ExistingSubsUndisturbed", "DuplicateRequestNoEffect", "UnknownCompo
 ACTIONS = ["MsgStep", "ReqStep", "RecvStep", "AddStep", "StartStep", "ConsStep", "SendStep"]
 # the forced hand-over order: a subscription, a burst, a second subscription on the same component
 # (other metric), one more message; then a duplicate of the first
-HANDOVER = [("req", 1, 1, 1), ("msg", 1, 0, 0), ("msg", 1, 0, 0), ("req", 1, 1, 2), ("msg", 1, 0, 0)]
-HANDOVER_NS = [("req", 1, 1, 1), ("msg", 1, 0, 0), ("req", 1, 2, 1), ("msg", 1, 0, 0), ("req", 1, 1, 1)]
+HANDOVER = [("req", 1, 1, 1, 0), ("msg", 1, 0, 0, 0), ("msg", 1, 0, 0, 0), ("req", 1, 1, 2, 0), ("msg", 1, 0, 0, 0)]
+HANDOVER_NS = [("req", 1, 1, 1, 0), ("msg", 1, 0, 0, 0), ("req", 1, 2, 1, 0), ("msg", 1, 0, 0, 0), ("req", 1, 1, 1, 0)]
+# ... and one whose second subscription differs from the first only in start_time, then its exact duplicate
+HANDOVER_ST = [("req", 1, 1, 1, 0), ("msg", 1, 0, 0, 0), ("req", 1, 1, 1, 1), ("msg", 1, 0, 0, 0), ("req", 1, 1, 1, 1)]
 
 NONE = -99
 HEAP = "2g"  # the state spaces are small; many checks share the machine
@@ -128,6 +134,7 @@ class Exec:
         self.slow: bool = bool(cfg.get("slow"))
         self.cm, self.MetricId, self.Request = cm, ComponentMetricId, ComponentMetricRequest
         self.Sample, self.Quantity, self.EPOCH = Sample, Quantity, EPOCH
+        self.START_TIME = EPOCH - timedelta(days=1)  # the "some fixed datetime" of start_time = 1
         self.obs: list[dict] = []
         self.lines: list[dict] = []
         self.nmsg = {c: 0 for c in range(1, self.nc + 1)}
@@ -207,8 +214,8 @@ class Exec:
 
     # -- helpers -------------------------------------------------------------
     @staticmethod
-    def ob(k, c=0, ns=0, m=0, id=0, ts=0, val=0):  # pylint: disable=redefined-builtin
-        return dict(k=k, c=c, ns=ns, m=m, id=id, ts=ts, val=val)
+    def ob(k, c=0, ns=0, m=0, st=0, id=0, ts=0, val=0):  # pylint: disable=redefined-builtin
+        return dict(k=k, c=c, ns=ns, m=m, st=st, id=id, ts=ts, val=val)
 
     def ts_int(self, t) -> int:
         try:
@@ -225,14 +232,15 @@ class Exec:
     def key_of(self, r) -> dict:
         c = r.component_id if r.component_id <= self.nc else UNKNOWN
         ns = int(r.namespace[2:])
+        st = 0 if r.start_time is None else (1 if r.start_time == self.START_TIME else NONE)
         for m in range(1, self.nm + 1):
             if self.metric(c, m)[0] == r.metric_id.name:
-                return dict(c=c, ns=ns, m=m)
-        return dict(c=c, ns=ns, m=0)
+                return dict(c=c, ns=ns, m=m, st=st)
+        return dict(c=c, ns=ns, m=0, st=st)
 
-    def make_request(self, c: int, ns: int, m: int):
+    def make_request(self, c: int, ns: int, m: int, st: int = 0):
         cid = c if c <= self.nc else 99
-        return self.Request(f"ns{ns}", cid, getattr(self.MetricId, self.metric(c, m)[0]), None)
+        return self.Request(f"ns{ns}", cid, getattr(self.MetricId, self.metric(c, m)[0]), self.START_TIME if st else None)
 
     def _sync(self, coro) -> None:
         try:
@@ -242,14 +250,14 @@ class Exec:
         raise RuntimeError("Sender.send suspended; cannot inject synchronously")
 
     # -- injections ----------------------------------------------------------
-    def request(self, c: int, ns: int, m: int) -> None:
-        req = self.make_request(c, ns, m)
-        key = (c, ns, m)
+    def request(self, c: int, ns: int, m: int, st: int = 0) -> None:
+        req = self.make_request(c, ns, m, st)
+        key = (c, ns, m, st)
         if key not in self.taps:
             # a consumer creates its receiver before (or in the same step as) sending the request
             self.taps[key] = self.registry.get_or_create(self.Sample[self.Quantity], req.get_channel_name()).new_receiver(limit=500)
         self._sync(self.req_sender.send(req))
-        self.lines.append(dict(ev="req", c=c, ns=ns, m=m))
+        self.lines.append(dict(ev="req", c=c, ns=ns, m=m, st=st))
 
     def message(self, c: int) -> None:
         self.nmsg[c] += 1
@@ -288,14 +296,14 @@ class Exec:
 
     # -- observation ---------------------------------------------------------
     def _drain(self) -> None:
-        for (c, ns, m), rx in self.taps.items():
+        for (c, ns, m, st), rx in self.taps.items():
             while len(rx):  # BroadcastReceiver.__len__: number of unconsumed messages
                 s = rx.consume()
                 v = s.value.base_value if s.value is not None else None
                 iv = NONE
                 if v is not None and v == v and abs(v - round(v)) < 1e-9 and abs(v) < 2**30:
                     iv = int(round(v))
-                self.obs.append(self.ob("dlv", c=c, ns=ns, m=m, ts=self.ts_int(s.timestamp), val=iv))
+                self.obs.append(self.ob("dlv", c=c, ns=ns, m=m, st=st, ts=self.ts_int(s.timestamp), val=iv))
 
     def _projection(self):
         """Enrichment from private attributes (skipped if they are renamed)."""
@@ -346,7 +354,7 @@ def execute(case: dict) -> dict:
     try:
         for a in case["h"]:
             if a["a"] == "req":
-                ex.request(a["c"], a["ns"], a["m"])
+                ex.request(a["c"], a["ns"], a["m"], a.get("st", 0))
             elif a["a"] == "msg":
                 ex.message(a["c"])
             elif not ex.loop.idle():
@@ -381,7 +389,7 @@ def cfg_for(i: int, nm: int = 2) -> dict:
 
 
 def _int():
-    return dict(a="int", c=0, ns=0, m=0)
+    return dict(a="int", c=0, ns=0, m=0, st=0)
 
 
 def _witness(records: list) -> dict:
@@ -389,12 +397,14 @@ def _witness(records: list) -> dict:
     (book-keeping for the vacuity guards; no clause is decided here)."""
     w = dict(traces=0, samples=0, streams=0, restarts_with_existing_streams=0, restart_while_fanout_in_flight=0,
              restart_with_message_buffered=0, duplicate_takes=0, unknown_takes=0, back_to_back_takes=0,
-             receiver_created_by_suspending_api=0, samples_by_category={}, metrics_seen={})
+             receiver_created_by_suspending_api=0, requests_differing_only_in_start_time=0, samples_on_start_time_twins=0,
+             samples_by_category={}, metrics_seen={})
     for r in records:
         if True:
             w["traces"] += 1
             cfg = r["cfg"]
             taken: list[tuple] = []
+            twins: set = set()
             first: dict = {}  # key -> number of messages consumed when it was installed
             injected: dict = {}
             recv_from: dict = {}  # c -> number of messages injected before the API receiver existed
@@ -408,7 +418,7 @@ def _witness(records: list) -> dict:
                 nt = 0
                 for o in x["obs"]:
                     c = o["c"]
-                    key = (c, o["ns"], o["m"])
+                    key = (c, o["ns"], o["m"], o["st"])
                     if o["k"] == "take":
                         nt += 1
                         if c == UNKNOWN:
@@ -417,6 +427,9 @@ def _witness(records: list) -> dict:
                             w["duplicate_takes"] += 1
                         else:
                             old = [k for k in taken if k[0] == c]
+                            if any(k[:3] == key[:3] for k in old):
+                                w["requests_differing_only_in_start_time"] += 1
+                                twins.add(key)
                             if old:
                                 w["restarts_with_existing_streams"] += 1
                                 if any(consumed.get(c, 0) - first[k] > dlv.get(k, 0) for k in old):
@@ -432,6 +445,7 @@ def _witness(records: list) -> dict:
                         consumed[c] = consumed.get(c, 0) + 1
                     elif o["k"] == "dlv":
                         dlv[key] = dlv.get(key, 0) + 1
+                        w["samples_on_start_time_twins"] += key in twins
                         w["samples"] += 1
                         if 1 <= c <= len(cfg["cats"]):
                             cat = cfg["cats"][c - 1]
@@ -481,6 +495,7 @@ def _run_val(rep: Report, name: str, cases: list, d: Path, consts: dict, needs: 
             ExistingSubsUndisturbed_restarts_with_fanout_in_flight=wit["restart_while_fanout_in_flight"],
             ExistingSubsUndisturbed_restarts_with_message_buffered=wit["restart_with_message_buffered"],
             DuplicateRequestNoEffect_duplicates=wit["duplicate_takes"], UnknownComponentHarmless_requests=wit["unknown_takes"],
+            ExactlyOnceInOrder_streams_differing_only_in_start_time=wit["requests_differing_only_in_start_time"],
         ))
         _merge(rep.extra.setdefault("samples_by_category", {}), wit["samples_by_category"])
         _merge(rep.extra.setdefault("metrics_seen", {}), wit["metrics_seen"])
@@ -518,8 +533,8 @@ def _offset_cases(rep: Report, raw: list, depth: int, n_orders: int, kmax: int) 
     """Every chosen order of environment events (TLC enumerated them) crossed with EVERY vector of
     injection offsets: 0..kmax loop iterations between consecutive events."""
     full = [o for o in raw if len(o) == depth and o[0]["a"] == "req" and any(x["a"] == "msg" for x in o)]
-    as_rec = lambda t: [dict(a=a, c=c, ns=ns, m=m) for a, c, ns, m in t]  # noqa: E731
-    forced = [as_rec(HANDOVER), as_rec(HANDOVER_NS)]
+    as_rec = lambda t: [dict(a=a, c=c, ns=ns, m=m, st=st) for a, c, ns, m, st in t]  # noqa: E731
+    forced = [as_rec(HANDOVER), as_rec(HANDOVER_NS), as_rec(HANDOVER_ST)]
     for f in forced:
         if f not in raw:
             raise RuntimeError("the forced hand-over order is not an order the specification allows")
@@ -550,13 +565,13 @@ def _table_cases(nmsgs: int) -> list:
         for variant in (0, 1, 2):
             hh = []
             for m in range(1, nm + 1):
-                hh.append(dict(a="req", c=1, ns=1, m=m))
+                hh.append(dict(a="req", c=1, ns=1, m=m, st=0))
                 if variant == 1:
-                    hh += [_int(), _int(), dict(a="msg", c=1, ns=0, m=0)]
+                    hh += [_int(), _int(), dict(a="msg", c=1, ns=0, m=0, st=0)]
                 if variant == 2 and m % 3 == 0:
-                    hh += [dict(a="msg", c=1, ns=0, m=0), _int()]
+                    hh += [dict(a="msg", c=1, ns=0, m=0, st=0), _int()]
             hh += [_int()] * 4
-            hh += [dict(a="msg", c=1, ns=0, m=0)] * nmsgs
+            hh += [dict(a="msg", c=1, ns=0, m=0, st=0)] * nmsgs
             cases.append(dict(id=len(cases) + 1, stage="table", h=hh,
                               cfg=dict(cats=[cat, CATS[(ci + 1) % 4]], nm=nm, moff=[0, 0], slow=variant % 2)))
     return cases
@@ -574,6 +589,7 @@ def run(prop: str, tier: str) -> int:
         "consumption from the API receiver and from the request receiver is observed through Receiver.map probes handed in by the harness "
         "(public API, no repo hook); comp_data_tasks / _req_streaming_metrics are read as an enrichment only (skipped when renamed)",
         "consumer receivers on the registry channels are created before the request is sent (limit 500, nothing dropped by the receiver)",
+        "a subscription is identified by what determines its channel name: namespace, component, metric, start_time (None or one fixed datetime)",
         "'subscribed at that time' = from the first message consumed from the API receiver after the actor took the request off its queue (DESIGN 5/C20)",
         "handler restarts by run_forever after an exception, closed API streams and unknown metrics of a known category are out of scope",
     ]
@@ -612,15 +628,16 @@ def run(prop: str, tier: str) -> int:
         c["id"] = i + 1
         c["cfg"] = cfg_for(i + 1)
     needs = dict(
-        gen=("restarts_with_existing_streams", "duplicate_takes", "unknown_takes"),
-        sim=("restarts_with_existing_streams", "restart_while_fanout_in_flight", "duplicate_takes", "unknown_takes"),
+        gen=("restarts_with_existing_streams", "duplicate_takes", "unknown_takes", "requests_differing_only_in_start_time"),
+        sim=("restarts_with_existing_streams", "restart_while_fanout_in_flight", "duplicate_takes", "unknown_takes",
+             "requests_differing_only_in_start_time"),
         off=("restarts_with_existing_streams", "restart_while_fanout_in_flight", "restart_with_message_buffered", "duplicate_takes",
-             "receiver_created_by_suspending_api"),
+             "receiver_created_by_suspending_api", "requests_differing_only_in_start_time", "samples_on_start_time_twins"),
     )
     if cases:
         _run_val(rep, "bind", cases, work / "bind", BASE, needs)
     _run_val(rep, "table", _table_cases(sc["table_msgs"]), work / "table",
-             dict(BASE, Namespaces={1}, Metrics=set(range(1, max(len(t) for t in TABLE.values()) + 1))), {})
+             dict(BASE, Namespaces={1}, Starts={0}, Metrics=set(range(1, max(len(t) for t in TABLE.values()) + 1))), {})
     if not rep.failures:
         missing = [f"{c}.{t[0]}" for c in CATS for t in TABLE[c] if not rep.extra.get("metrics_seen", {}).get(f"{c}.{t[0]}")]
         if missing:
